@@ -29,6 +29,10 @@ func (a *NilAnalysis) nonNil(fn *ssa.Function, v ssa.Value, f nilFacts) bool {
 			}
 		}
 	case *ssa.Field:
+		// field of an element of a package-level slice / array literal that is never written after init
+		if a.globalLiteralElemFieldNonNil(x) {
+			return true
+		}
 		// field of a struct value found in a map (comma-ok lookup known to have succeeded) whose
 		// every literal of that struct type sets the field to a non-nil value
 		if ex, ok := x.X.(*ssa.Extract); ok && ex.Index == 0 && f != nil && f["v:"+ex.Name()] {
@@ -67,6 +71,9 @@ func (a *NilAnalysis) nonNil(fn *ssa.Function, v ssa.Value, f nilFacts) bool {
 					default:
 						n += 2 // the address escapes
 					}
+				}
+				if whole != nil && n == 1 && a.globalLiteralElemFieldNonNilOf(whole.Val, ad.Field) {
+					return true // a copy of an element of a constant package-level table
 				}
 				if whole != nil && n == 1 {
 					if ex, ok := whole.Val.(*ssa.Extract); ok && ex.Index == 0 && f["v:"+ex.Name()] {
@@ -825,4 +832,120 @@ func (a *NilAnalysis) literalFieldNonNil(t types.Type, idx int) bool {
 	}
 	a.litF[key] = allocs > 0
 	return allocs > 0
+}
+
+// globalLiteralElemFieldNonNil: x is field #f of an element of a package-level slice or array that
+// is initialised once, in init, from a literal whose every element stores a non-nil value into
+// field #f, and that nothing outside init writes (the effect summaries are consulted).
+func (a *NilAnalysis) globalLiteralElemFieldNonNil(x *ssa.Field) bool {
+	return a.globalLiteralElemFieldNonNilOf(x.X, x.Field)
+}
+
+func (a *NilAnalysis) globalLiteralElemFieldNonNilOf(val ssa.Value, field int) bool {
+	u, ok := val.(*ssa.UnOp)
+	if !ok || u.Op != token.MUL {
+		return false
+	}
+	ia, ok := u.X.(*ssa.IndexAddr)
+	if !ok {
+		return false
+	}
+	var gl *ssa.Global
+	switch b := ia.X.(type) {
+	case *ssa.Global:
+		gl = b
+	case *ssa.UnOp:
+		gl, _ = b.X.(*ssa.Global)
+	}
+	if gl == nil || gl.Pkg == nil {
+		return false
+	}
+	key := "glit:" + gl.Name() + "#" + itoa(field)
+	if a.litF == nil {
+		a.litF = map[string]bool{}
+	}
+	if r, ok := a.litF[key]; ok {
+		return r
+	}
+	a.litF[key] = false
+	for _, fn := range a.p.LibFns {
+		if FnName(fn) == "init" {
+			continue
+		}
+		if sum := a.eff.Sum[fn]; sum != nil {
+			for _, ef := range sum.Effects {
+				if rootBase(ef.Root) == "G:"+globalName(gl) {
+					return false
+				}
+			}
+		}
+	}
+	init := gl.Pkg.Func("init")
+	if init == nil {
+		return false
+	}
+	// the backing array of the literal
+	var backing ssa.Value = gl
+	n := int64(-1)
+	if at, ok := gl.Type().(*types.Pointer).Elem().Underlying().(*types.Array); ok {
+		n = at.Len()
+	} else {
+		stores := 0
+		for _, b := range init.Blocks {
+			for _, ins := range b.Instrs {
+				st, ok := ins.(*ssa.Store)
+				if !ok || st.Addr != ssa.Value(gl) {
+					continue
+				}
+				stores++
+				if sl, ok := st.Val.(*ssa.Slice); ok && sl.Low == nil && sl.High == nil {
+					if al, ok := sl.X.(*ssa.Alloc); ok {
+						if at, ok := al.Type().(*types.Pointer).Elem().Underlying().(*types.Array); ok {
+							backing, n = al, at.Len()
+						}
+					}
+				}
+			}
+		}
+		if stores != 1 {
+			return false
+		}
+	}
+	if n <= 0 {
+		return false
+	}
+	set := map[int64]bool{}
+	for _, b := range init.Blocks {
+		for _, ins := range b.Instrs {
+			st, ok := ins.(*ssa.Store)
+			if !ok {
+				continue
+			}
+			fa, ok := st.Addr.(*ssa.FieldAddr)
+			if !ok || fa.Field != field {
+				continue
+			}
+			ea, ok := fa.X.(*ssa.IndexAddr)
+			if !ok || ea.X != backing {
+				continue
+			}
+			i, ok := constInt(ea.Index)
+			if !ok {
+				return false
+			}
+			switch v := st.Val.(type) {
+			case *ssa.Function, *ssa.MakeClosure:
+			default:
+				if !constructorNonNil(v) && !a.nonNil(init, v, nil) {
+					return false
+				}
+			}
+			set[i] = true
+		}
+	}
+	if int64(len(set)) != n {
+		return false
+	}
+	a.litF[key] = true
+	return true
 }
